@@ -279,3 +279,216 @@ func indexOfBlock(bs []fixBlock, b fixBlock) int {
 	}
 	return 0
 }
+
+// Scenario BF-MIXED (C23): one block-fetch client shared by 2-3 application
+// tasks that issue single-block and range requests at the same time against a
+// real server Connection serving from a model block store. Calls are serialised
+// by the client, so the callback must see exactly the blocks served for range
+// requests, in the order served, and every GetBlock must return its own block.
+func init() {
+	register(&Scenario{Name: "bf-mixed", Setup: bfMixedSetup})
+}
+
+func bfMixedSetup(s *rt.Sim, tier string) func() {
+	schedCfg(s, true)
+	s.Cfg.MaxSteps = 120000
+	s.Cfg.MaxStall = 200 * time.Millisecond
+	s.Cfg.Horizon = 6 * time.Hour
+	return func() {
+		ncfg := drawNetCfg(true)
+		if ncfg.BufCap > 0 && ncfg.BufCap < 8192 {
+			ncfg.BufCap = 8192
+		}
+		if ncfg.Latency > 20*time.Millisecond {
+			ncfg.Latency = 20 * time.Millisecond
+		}
+		ncfg.Jitter = 0
+		pair := NewPair(ncfg)
+		blocks := fixBlocks()
+		var servedRange []fixBlock // blocks served for range requests, in serving order
+		var delivered []string
+		completions := 0
+		slow := chance("cfg", 1, 3)
+		slowServer := chance("cfg", 1, 2)
+		serverSide := func(ctx blockfetch.CallbackContext, start, end pcommon.Point) error {
+			if slowServer && chance("op", 1, 2) {
+				sleep(oneOf("op", time.Millisecond, 30*time.Millisecond, 400*time.Millisecond))
+			}
+			// a single-block request names a block of the store
+			for _, b := range blocks {
+				if start.Slot == end.Slot && bytes.Equal(start.Hash, b.Hash) {
+					if err := ctx.Server.StartBatch(); err != nil {
+						return err
+					}
+					if slowServer && chance("op", 1, 2) {
+						sleep(oneOf("op", time.Millisecond, 30*time.Millisecond, 400*time.Millisecond))
+					}
+					if err := ctx.Server.Block(b.Type, b.Data); err != nil {
+						return err
+					}
+					return ctx.Server.BatchDone()
+				}
+			}
+			n := 1 + pick("op", 4)
+			if err := ctx.Server.StartBatch(); err != nil {
+				return err
+			}
+			for i := 0; i < n; i++ {
+				b := blocks[pick("op", len(blocks))]
+				servedRange = append(servedRange, b)
+				if slowServer && chance("op", 1, 3) {
+					sleep(oneOf("op", time.Millisecond, 30*time.Millisecond, 400*time.Millisecond))
+				}
+				if err := ctx.Server.Block(b.Type, b.Data); err != nil {
+					return err
+				}
+			}
+			return ctx.Server.BatchDone()
+		}
+		cCfg, _ := blockfetch.NewConfig(
+			blockfetch.WithBlockFunc(func(ctx blockfetch.CallbackContext, t uint, b ledger.Block) error {
+				delivered = append(delivered, fmt.Sprintf("%d/%x", t, b.Hash().Bytes()[:6]))
+				if slow && chance("op", 1, 3) {
+					sleep(oneOf("op", 10*time.Millisecond, time.Second))
+				}
+				return nil
+			}),
+			blockfetch.WithBatchDoneFunc(func(blockfetch.CallbackContext) error { completions++; return nil }),
+		)
+		sCfg, _ := blockfetch.NewConfig(blockfetch.WithRequestRangeFunc(serverSide))
+		co := connOpts{ntn: true, magic: 42, keepAlive: true}
+		so := connOpts{ntn: true, magic: 42, server: true}
+		var cConn, sConn *ouroboros.Connection
+		var cErr, sErr error
+		cRet, sRet := false, false
+		go func() {
+			sConn, sErr = ouroboros.NewConnection(append(so.options(pair.B), ouroboros.WithBlockFetchConfig(sCfg))...)
+			sRet = true
+		}()
+		go func() {
+			cConn, cErr = ouroboros.NewConnection(append(co.options(pair.A), ouroboros.WithBlockFetchConfig(cCfg))...)
+			cRet = true
+		}()
+		for i := 0; i < 600 && !(cRet && sRet); i++ {
+			sleep(100 * time.Millisecond)
+		}
+		if !cRet || !sRet || cErr != nil || sErr != nil {
+			rt.Hit("bf.setup-failed")
+			return
+		}
+		cw, sw := watchConn(cConn), watchConn(sConn)
+		type call struct {
+			single   bool
+			want     fixBlock
+			got      ledger.Block
+			err      error
+			ret      bool
+			inv, fin uint64
+		}
+		var calls []*call
+		ntasks := 2 + pick("cfg", 2)
+		fin := make(chan struct{}, 4)
+		for task := 0; task < ntasks; task++ {
+			task := task
+			go func() {
+				defer func() { fin <- struct{}{} }()
+				for i := 0; i < 1+pick("op", 3); i++ {
+					c := &call{single: chance("op", 1, 2)}
+					calls = append(calls, c)
+					if chance("op", 1, 3) {
+						sleep(oneOf("op", time.Millisecond, 20*time.Millisecond, 300*time.Millisecond))
+					}
+					c.inv = rt.Stamp()
+					if c.single {
+						c.want = blocks[pick("op", len(blocks))]
+						c.got, c.err = cConn.BlockFetch().Client.GetBlock(c.want.Point)
+					} else {
+						c.err = cConn.BlockFetch().Client.GetBlockRange(samplePoint(uint64(task*10+i)), samplePoint(uint64(task*10+i+5)))
+					}
+					c.fin = rt.Stamp()
+					c.ret = true
+				}
+			}()
+		}
+		// every caller task finishes within 20 simulated minutes
+		done := 0
+		for i := 0; i < 6000 && done < ntasks; i++ {
+			select {
+			case <-fin:
+				done++
+			default:
+				sleep(200 * time.Millisecond)
+			}
+		}
+		if pair.A.Deadline+pair.B.Deadline > 0 {
+			return
+		}
+		nSingle, nRange, rangeOK := 0, 0, 0
+		for _, c := range calls {
+			if c.single {
+				nSingle++
+			} else {
+				nRange++
+			}
+		}
+		if nSingle > 0 && nRange > 0 {
+			rt.Hit("bfmixed.both-kinds")
+		}
+		desc := fmt.Sprintf("%d tasks sharing one client, %d GetBlock and %d GetBlockRange calls", ntasks, nSingle, nRange)
+		for i, c := range calls {
+			if !c.ret {
+				kind := "GetBlockRange"
+				if c.single {
+					kind = "GetBlock"
+				}
+				rt.Violate("C23/getblock-hangs/mixed", "%s: call #%d (%s) had not returned after 20 simulated minutes with the connection up (client errors %v, server errors %v; %d blocks delivered to the callback, %d served for ranges)", desc, i, kind, cw.errs, sw.errs, len(delivered), len(servedRange))
+				return
+			}
+		}
+		if len(cw.errs) > 0 || len(sw.errs) > 0 {
+			rt.Violate("C23/error-in-conforming-use", "%s: connection errors with an honest server: client %v server %v", desc, cw.errs, sw.errs)
+			return
+		}
+		for i, c := range calls {
+			if c.single {
+				if c.err != nil {
+					rt.Violate("C23/matching-block-rejected", "%s: call #%d GetBlock(%s block) failed although the server served exactly that block: %v", desc, i, c.want.Era, c.err)
+					return
+				}
+				if c.got == nil || !bytes.Equal(c.got.Hash().Bytes(), c.want.Hash) {
+					rt.Violate("C23/wrong-block-returned/mixed", "%s: call #%d GetBlock(%s block) returned a block with another hash", desc, i, c.want.Era)
+					return
+				}
+			} else {
+				if c.err != nil {
+					rt.Violate("C23/range-request-failed", "%s: call #%d GetBlockRange failed although the server started a batch: %v", desc, i, c.err)
+					return
+				}
+				rangeOK++
+			}
+		}
+		for i := 0; i < 3000 && completions < rangeOK; i++ {
+			sleep(200 * time.Millisecond)
+		}
+		if pair.A.Deadline+pair.B.Deadline > 0 {
+			return
+		}
+		if completions != rangeOK {
+			rt.Violate("C23/range-never-completes", "%s: %d range requests accepted, completion callback called %d times (errors %v %v)", desc, rangeOK, completions, cw.errs, sw.errs)
+			return
+		}
+		if len(delivered) != len(servedRange) {
+			rt.Violate("C23/range-block-count", "%s: %d blocks served for range requests, %d delivered to the block callback", desc, len(servedRange), len(delivered))
+			return
+		}
+		for i, b := range servedRange {
+			if want := fmt.Sprintf("%d/%x", b.Type, b.Hash[:6]); delivered[i] != want {
+				rt.Violate("C23/range-order", "%s: block #%d delivered to the callback is %s, the server served %s", desc, i, delivered[i], want)
+				return
+			}
+		}
+		rt.Hit("bfmixed.checked")
+		cConn.Close()
+		sConn.Close()
+	}
+}
